@@ -124,6 +124,19 @@ def check(tier, seed):
                             cached = {x.name: x.value for x in fr.f._fields.values() if isinstance(x.value, int)}
                             add(fr, cached, {'message': name, 'state': 'decoded', 'field': it.name, 'byte': v, 'payload_hex': C.hexs(pay)}, f'table/{rc}')
                             n_table += 1
+                    # decoded with one byte value, then ASSIGNED every byte value (cached sub-fields vs current value)
+                    if w == 1:
+                        for v0 in (0, 5, 0x12, 0x13, 0x3f, 0xff):
+                            pay = bytearray(base)
+                            pay[off] = v0
+                            if e['kind'] == 'counted' and pay[sum(F.tok_width(t) for n, t in e['hdr'][:[n for n, _ in e['hdr']].index(e['count'])])] != 1:
+                                continue
+                            for v in range(256):
+                                fr = cls.construct(bytearray(pay))
+                                cached = {x.name: x.value for x in fr.f._fields.values() if isinstance(x.value, int)}
+                                setattr(fr.f, it.name, v)
+                                add(fr, cached, {'message': name, 'state': 'edited', 'field': it.name, 'decoded_byte': v0, 'assigned': v, 'payload_hex': C.hexs(pay)}, f'table-edit/{rc}')
+                                n_table += 1
                 off += w
         res.notes['table_renderer_values'] = n_table
         res.exhaustive = True
